@@ -46,8 +46,10 @@ def gen_cases(run):
                     else:
                         ops.append((1, *p))
                 ops += [(1, *q) for q in (cs if len(cs) <= 130 else rng.sample(cs, 130))]
-                cases.append(Case("grid", [kind, W, H, D, C], ops, {"kind": "random"}))
+                nz = rng.random() < 0.4        # element type whose Default is not the all-zero bit pattern (harness family gridnz)
+                cases.append(Case("grid", [kind, W, H, D, C], ops, {"kind": "random", "nz": nz}))
                 dist["random_cases"] += 1
+                if nz: dist["non_zero_default_cases"] = dist.get("non_zero_default_cases", 0) + 1
             # out of bounds on one axis: both sides must panic
             if rng.random() < 0.5:
                 p = list(rng.choice(cs))
@@ -78,6 +80,7 @@ def builds(run):
 
 def mk_diff(run, bins):
     return Differential(run, bins, lambda c: "grid_model_entry", lambda c: "grid_spec_entry",
+                        harness_head=lambda c: "gridnz" if c.meta.get("nz") else "grid",
                         nontrivial=lambda c: sum(1 for o in c.ops if o[0] == 0) >= 1 and len(c.ops) >= 3)
 
 
